@@ -11,7 +11,7 @@
    Partial (numeric / runtime, covered by the e2e oracle, not by a theorem): that the float kernels compute d
    (C35), that IVF_FLAT reports da = d, the IVF partition assignment and centroid ranking, the late search
    (minimum_nprobes < maximum_nprobes), range queries, multivector columns, PQ/SQ/HNSW sub-indices. *)
-From LanceV Require Import Common.Base Index.Model_TopK Index.Proofs_TopK.
+From LanceV Require Import Common.Base Index.Model_TopK Index.Proofs_TopK Index.Proofs_TopKPost.
 From Coq Require Import Permutation Sorted.
 Local Open Scope N_scope.
 
@@ -213,6 +213,30 @@ Proof.
 Qed.
 Print Assumptions C22_total_outside_class.
 
+(* ---- post-filtered searches (prefilter = false with a filter; every mode, partial probing included).
+   Which of several rows TIED at the k-th distance survive the top-k cut is the heap's / the row-id order's business,
+   so the distance list after the filter is not a function of the input.  adm_post is its envelope: it accepts the
+   post-filter of EVERY sorted top-k selection of the ranked rows ... *)
+Theorem C22_postfilter_any_ties : forall (R : Type) (d : R -> key) (flt : R -> bool) (k : nat) (U S : list R),
+  is_topk key_leb d k U S -> StronglySorted (fun x y => key_leb (d x) (d y) = true) S ->
+  adm_post R d flt k U (map d (filter flt S)) = true.
+Proof. exact adm_post_sound. Qed.
+Print Assumptions C22_postfilter_any_ties.
+
+(* ... hence the output of Scanner::nearest for every heap implementation meeting the BinaryHeap contract, and every
+   returned row is a ranked row that passes the filter (the acceptance rule of the `search` correspondence stream). *)
+Theorem C22_postfilter_search : forall (R : Type) (rid : R -> N) (d da : R -> key) (deleted flt : R -> bool)
+    (peek : list R -> option R) (pop : list R -> list R), heap_ok da peek pop ->
+  forall (ef : bool) (k : nat) (refine : option nat) (np : nat) (me fast ui : bool)
+    (deltas : list (list (list R))) (fresh rows : list R) (b : bool),
+  refine <> Some 0%nat ->
+  (ui = true -> forall r, In r (idx_rows R deleted flt me false np deltas) -> da r = d r /\ nonnull R d r = true) ->
+  search R rid d da deleted flt peek pop ef k refine np me true false fast ui deltas fresh = Ok (rows, b) ->
+  adm_post R d flt k (universe R d deleted flt np me false fast ui deltas fresh) (map d rows) = true /\
+  (forall r, In r rows -> In r (universe R d deleted flt np me false fast ui deltas fresh) /\ flt r = true).
+Proof. exact search_post_admissible. Qed.
+Print Assumptions C22_postfilter_search.
+
 (* ---- refutations on the faithful model (both reproduced on the real code, see KNOWN_FINDINGS.txt) *)
 Definition wrow : Type := (N * key)%type.
 Definition wsearch := search wrow fst snd snd (fun _ => false) (fun _ => true) (peek_max wrow snd) (pop_max wrow fst snd).
@@ -249,6 +273,20 @@ Example C22_nonvacuous_exact :
   /\ wsearch true 0%nat None 1%nat true false true false true [] rows = Err
   /\ wsearch true 2%nat (Some 0%nat) 1%nat true false true false true [] rows = Err
   /\ wsearch true 4%nat None 0%nat true false true false false [] rows = Ok ([(6, KNum 1%Z); (2, KNum 3%Z); (4, KNum 3%Z); (1, KNum 5%Z)], true).
+Proof. repeat split; vm_compute; reflexivity. Qed.
+
+(* post-filter envelope: rows 1,2 at distance 0, rows 3..6 TIED at distance 1 (3 and 5 pass the filter), k = 3: one
+   tied row survives the cut.  Accepted: [0] (tied survivor fails the filter) and [0;1]; rejected: two tied
+   survivors, a missing row below the cut, an unsorted list, a distance beyond the cut. *)
+Example C22_nonvacuous_postfilter :
+  let U := [(1, (KNum 0%Z, true)); (2, (KNum 0%Z, false)); (3, (KNum 1%Z, true)); (4, (KNum 1%Z, false));
+            (5, (KNum 1%Z, true)); (6, (KNum 1%Z, false)); (7, (KNum 2%Z, true))] in
+  let adm := adm_post (N * (key * bool)) (fun r => fst (snd r)) (fun r => snd (snd r)) 3%nat U in
+  adm [KNum 0%Z] = true /\ adm [KNum 0%Z; KNum 1%Z] = true /\
+  adm [KNum 0%Z; KNum 1%Z; KNum 1%Z] = false /\ adm [KNum 1%Z] = false /\ adm [] = false /\
+  adm [KNum 1%Z; KNum 0%Z] = false /\ adm [KNum 0%Z; KNum 2%Z] = false /\
+  adm_post (N * (key * bool)) (fun r => fst (snd r)) (fun r => snd (snd r)) 7%nat U [KNum 0%Z; KNum 1%Z; KNum 1%Z; KNum 2%Z] = true /\
+  adm_post (N * (key * bool)) (fun r => fst (snd r)) (fun r => snd (snd r)) 7%nat U [KNum 0%Z; KNum 1%Z; KNum 2%Z] = false.
 Proof. repeat split; vm_compute; reflexivity. Qed.
 
 (* exhaustive small-universe sweep of the merge statement (a test, not the theorem): all partitionings into two
